@@ -385,6 +385,12 @@ def run(c) -> CaseResult:
             res.labels.append("second-call")
         except Exception as e:  # noqa: BLE001
             res.fail(exc_bucket(f"C08.second-call.raises:{cls}", e), f"{type(e).__name__}: {e}")
+    # (b0) the options decide which parameters exist: same parameter names as the torch.nn counterpart built with the same options
+    tw_mod = getattr(twin, "module", None) if twin is not None else None
+    if tw_mod is not None:
+        mine, theirs = sorted(n for n, _ in m.named_parameters()), sorted(n for n, _ in tw_mod.named_parameters())
+        if mine != theirs:
+            res.fail(f"C08.option.parameter-set:{cls}", f"parameters {mine} but torch.nn.{type(tw_mod).__name__} with the same options has {theirs}")
     # (b) torch.nn twin sharing the state_dict
     if twin is not None:
         fl2 = [x.clone().requires_grad_() if x.is_floating_point() else x for x in xs]
